@@ -336,7 +336,7 @@ class Model:
         res = m.child(
             new_id,
             "collect_fresh",
-            name=None,
+            name=m.name,  # the exported frame carries the table name and Table(df) picks it up
             visible=[(n, mp[t]) for n, t in m.visible],
             scope=[mp[t] for t in vis_toks],
             grouping=[],
